@@ -144,8 +144,14 @@ func genH264AUx(t *core.Tape, mtu int, allowParams bool, state *int, supersede b
 		*state = 0
 	}
 	for i := 0; i < n; i++ {
+		psize := func(base int) int {
+			if mtu >= 600 && t.Chance(1, 6) {
+				return 200 + t.Intn(500) // parameter sets with VUI / scaling lists are several hundred bytes long
+			}
+			return 2 + t.Intn(base)
+		}
 		if *state == 1 {
-			add(8, byte(t.Intn(4)), 2+t.Intn(12))
+			add(8, byte(t.Intn(4)), psize(12))
 			*state = 2
 			continue
 		}
@@ -162,7 +168,7 @@ func genH264AUx(t *core.Tape, mtu int, allowParams bool, state *int, supersede b
 				ordinary()
 				continue
 			}
-			add(7, byte(t.Intn(4)), 2+t.Intn(20))
+			add(7, byte(t.Intn(4)), psize(20))
 			*state = 1
 		case 2:
 			add(9, 0, 2) // AUD
